@@ -8,12 +8,21 @@ SOLVER = {"C02", "C03", "C04", "C06", "C07", "C10", "C11"}
 
 
 def run():
+    from .common import quiet_package_logging
+
+    quiet_package_logging()
     prop = sys.argv[1]
     replay = sys.argv[2] if len(sys.argv) > 2 else ""
     if prop in SOLVER:
         from . import check_solver as m
 
         return m.replay_scenario(prop, replay) if replay else m.main(prop)
+    if prop in ("C16", "C13"):
+        from . import check_config as m
+
+        if replay:
+            raise MachineryError("replay files of %s are descriptive; rerun the check" % prop)
+        return m.main_met() if prop == "C16" else m.main_single()
     raise MachineryError("no check registered for " + prop)
 
 
